@@ -14,7 +14,7 @@ RULE = ("StochasticNetwork worlds: 1-4 stations, more simultaneous sessions than
         "waiting pattern")
 PROBES = ["waited_then_admitted", "left_while_waiting", "early_unplug", "two_or_more_waiting_at_admission", "direct_plugin",
           "satisfied_residual_evicted", "same_seed_rerun", "choice_first", "choice_last", "resumed", "generated_multi_day_queue",
-          "queried_between_registrations"]
+          "queried_between_registrations", "hashseed_fresh_interpreter"]
 FAULT_DIMENSION = "adversarial random.choice tape (always first / always last free station); crash + rerun"
 ASSUMPTIONS = ["the model does not predict *which* free station is chosen, only that it was free",
                "early departure: a connected EV is 'satisfied' when requested - delivered <= 1e-3 kWh (the library's fully_charged)"]
@@ -241,3 +241,47 @@ def check(sc):
 def run_real_choice(sc):
     """Seam off: the library's own random.choice, global generator seeded by the caller."""
     return driver.run_world(sc, observe=0, snapshot=False)
+
+
+# ---------------------------------------------------------------- "reproducible under a fixed random seed" also means: in another
+# interpreter process (another PYTHONHASHSEED). The event-log digest contains every random.choice call (candidates, pick).
+def _digests(seed, tier, lo, hi):
+    from ..rng import run_seed
+    out = []
+    for idx in range(lo, hi):
+        sc = gen(run_seed(seed, ID, idx), tier)
+        sc.update(property=ID, verif_seed=seed, run=idx)
+        o = check(sc)
+        out.append(o.digest)
+    return out
+
+
+def post_run(tier, seed):
+    import json, os, subprocess, sys
+    from ..rng import run_seed
+    n = 150 if tier == "quick" else 1500
+    mine = _digests(seed, tier, 0, n)
+    env = dict(os.environ)
+    env["PYTHONHASHSEED"] = "4242"
+    env["PYTHONPATH"] = os.path.dirname(os.path.dirname(os.path.dirname(os.path.abspath(__file__)))) + os.pathsep + env.get("PYTHONPATH", "")
+    p = subprocess.run([sys.executable, "-m", "dsim.props.c19", str(seed), tier, "0", str(n)], env=env, capture_output=True,
+                       text=True, timeout=900)
+    if p.returncode != 0:
+        raise RuntimeError("fresh interpreter failed: " + p.stderr[-500:])
+    theirs = json.loads(p.stdout.strip().splitlines()[-1])
+    viols = []
+    for i, (a, b) in enumerate(zip(mine, theirs)):
+        if a != b:
+            sc = gen(run_seed(seed, ID, i), tier)
+            sc.update(property=ID, verif_seed=seed, run=i)
+            viols.append((i, sc, [("C19/hash_seed_dependence", "world %d: same scenario, same random tape, event-log digest %s under PYTHONHASHSEED=0 and %s "
+                                   "under 4242 in a fresh interpreter (the free-station candidates or their order depend on the hash seed)" % (i, a, b))]))
+            if len(viols) >= 2:
+                break
+    return {"viols": viols, "probes": {"hashseed_fresh_interpreter": n}}
+
+
+if __name__ == "__main__":
+    import json, sys
+    seed_, tier_, lo_, hi_ = int(sys.argv[1]), sys.argv[2], int(sys.argv[3]), int(sys.argv[4])
+    print(json.dumps(_digests(seed_, tier_, lo_, hi_)))
